@@ -539,6 +539,7 @@ func run(w *ev.W) {
 		return
 	}
 	w.Count("max_choice_depth", 0)
+	r.namedPrograms()
 	r.structFamily()
 	n := 0
 	enumerate(w, func(pc progCase) {
@@ -590,5 +591,67 @@ func replayFiles(w *ev.W, files map[string]string, bound int) {
 	w.Sample(files)
 	if len(outs) > 1 {
 		w.Violation("order-dependent:replay", fmt.Sprintf("%d different results under different map orders", len(outs)), map[string]interface{}{"files": files})
+	}
+}
+
+// namedPrograms: single programs outside the systematic families, each valid by
+// construction, compiled from every file of the program as root under every map
+// order: accepted from every root, with the same result.
+func (r *runner) namedPrograms() {
+	w := r.w
+	progs := []struct {
+		name  string
+		files map[string]string
+	}{
+		// the TYPE of constant X leads, through an include cycle, to a default that refers
+		// to X; X's value does not depend on itself
+		{"const-type-cycle-through-include", map[string]string{
+			"/m/f0.thrift": "include \"./f1.thrift\"\nconst list<f1.S> X = []\n",
+			"/m/f1.thrift": "include \"./f0.thrift\"\nstruct S { 1: optional list<S> l = f0.X }\n"}},
+		{"const-struct-type-cycle-through-include", map[string]string{
+			"/m/f0.thrift": "include \"./f1.thrift\"\nconst f1.S X = {}\n",
+			"/m/f1.thrift": "include \"./f0.thrift\"\nstruct S { 1: optional i32 a = 1; 2: optional list<S> l }\nstruct T { 1: optional S s = f0.X }\n"}},
+		{"const-type-cycle-same-file", map[string]string{
+			"/m/f0.thrift": "const list<S> X = []\nstruct S { 1: optional list<S> l = X }\n"}},
+	}
+	for _, p := range progs {
+		if !w.Own() {
+			continue
+		}
+		w.Eval(1)
+		w.Nontrivial(1)
+		w.Count("named_programs", 1)
+		rep := map[string]interface{}{"files": p.files, "name": p.name}
+		results := map[string]string{}
+		for root := range p.files {
+			distinct := map[string]bool{}
+			ex := &choice.Explorer{Bound: r.bound}
+			ex.Body = func(c *choice.Ctx) {
+				out, _ := outcomeAt(root, p.files, c)
+				distinct[strings.SplitN(out, "\n", 2)[0]] = true
+			}
+			ex.Run()
+			w.R.States += ex.Stats.States
+			w.R.Transitions += ex.Stats.Transitions
+			var ks []string
+			for k := range distinct {
+				ks = append(ks, k)
+			}
+			sort.Strings(ks)
+			results[root] = strings.Join(ks, "|")
+		}
+		bad := false
+		for _, v := range results {
+			if v != "OK" {
+				bad = true
+			}
+		}
+		if bad {
+			_, msg := outcomeAt("/m/f0.thrift", p.files, nil)
+			w.Violation("rejected-valid:named:"+p.name, fmt.Sprintf("a valid program is not accepted from every root under every order: results by root %v; error from f0: %.300s; files %v", results, msg, p.files), rep)
+		} else {
+			w.Outcome("named:OK")
+		}
+		w.Done()
 	}
 }
